@@ -141,7 +141,7 @@ fn deliver(iface: &IfaceDesc, msgs: &[&[u8]], d: Delivery, rng: &mut Rng, resp_m
     let longest = msgs.iter().map(|m| m.len()).max().unwrap_or(1).max(resp_max).max(1);
     let pend = if rng.chance(1, 3) { rng.next() | 1 } else { 0 };
     let ns = (iface.ns)();
-    let big = *ns.iter().filter(|n| **n >= longest + 1).min().or(ns.iter().max()).unwrap();
+    let big = *ns.iter().filter(|n| **n >= longest).min().or(ns.iter().max()).unwrap();
     let biggest = *ns.iter().max().unwrap();
     if biggest < longest {
         return None;
@@ -195,6 +195,9 @@ fn shard(ctx: &Ctx, ifaces: &[&'static IfaceDesc], shard: usize, cases: u64) -> 
         let mut st = Style::plain();
         for _ in 0..k {
             st.seed = rng.next();
+            st.case = rng.below(3) as u8;
+            st.ws_unit_start = if rng.chance(1, 5) { vec![*rng.pick(&[b' ', b'\t', 0u8, 0x0b])] } else { vec![] };
+            st.crlf = rng.chance(1, 6);
             match rng.below(10) {
                 0 => msgs.push(HMsg { bytes: b"\n".to_vec(), exp_all: vec![], exp_none: vec![], fault: None }),
                 1 => msgs.push(HMsg { bytes: b" \t\n".to_vec(), exp_all: vec![], exp_none: vec![], fault: None }),
